@@ -251,8 +251,10 @@ class Case(object):
                 s = self.isa.build_state(self.plan, self.regobjs)
                 for i in seq:
                     i(s)
+            self.gA = self.isa.globals_snapshot()
             return "", s
         except Exception as e:
+            self.gA = self.isa.globals_snapshot()
             return exc_name(e), None
 
     def route_symbolic(self, k):
@@ -265,7 +267,9 @@ class Case(object):
                 m = mapper()
                 for i in seq:
                     i(m)
+            self.gB = self.isa.globals_snapshot()
         except Exception as e:
+            self.gB = self.isa.globals_snapshot()
             return "build:" + exc_name(e), None, None, None
         try:
             with limit():
@@ -358,13 +362,16 @@ class Case(object):
         self.obsregs = None
         # run every prefix on every route, keep the final objects for observation
         runs = []
+        glob = {}
         for k in range(1, n + 1):
             ra, sa = self.route_concrete(k, exact=False)
+            ga = self.gA
             if not self.noal:
                 rx, sx = self.route_concrete(k, exact=True)
             else:
                 rx, sx = ra, None
             rb, m, sb, se = self.route_symbolic(k)
+            glob[k] = (ga, self.gB)
             runs.append((k, ra, sa, rx, sx, rb, m, sb, se))
             if ra or rb or rx:
                 break
@@ -396,7 +403,7 @@ class Case(object):
         cands = sorted(cands)[:MAXCAND]
         steps = []
         for (k, ra, sa, rx, sx, rb, m, sb, se) in runs:
-            st = {"k": k, "ra": ra, "rb": rb, "rx": rx, "deep": 0}
+            st = {"k": k, "ra": ra, "rb": rb, "rx": rx, "deep": 0, "gA": glob[k][0], "gB": glob[k][1]}
 
             def obs(route, fn, *a):
                 # reading a value back is an API call too: it may raise or hang, which is then what the route did
